@@ -96,6 +96,17 @@ inductive Kind
   | page | topDef | nestedDef | namedBlock | anonBlock
   deriving DecidableEq, Repr
 
+/-- the template that *declares* a section, when it is not the one being rendered (a base template's def or block
+    reached through `<%inherit>`: `parent.f()`, `next.body()`, the base's own body): index, URI, `cache_args` and the
+    `cache…` attributes of its `<%page>` tag.  The generated wrapper asks `context.get('local').cache`, and `local` in the
+    context a template's callables run with is that template's own namespace (`runtime._inherit_from`). -/
+structure Home where
+  tid : Nat
+  uri : Str
+  cacheArgs : List (Str × ArgV)
+  pageAttrs : List (Str × Expr)
+  deriving DecidableEq, Repr
+
 structure Hdr where
   kind : Kind
   name : Str                       -- def / block name (unused for page and anonymous block)
@@ -105,6 +116,14 @@ structure Hdr where
   buffered : Bool
   filtered : Bool                  -- `filter="wrapD"`
   attrs : List (Str × Expr)        -- the tag's `cache…` attributes, source order
+  home : Option Home := none       -- declaring template, when it is not the rendered one
+  deriving DecidableEq, Repr
+
+/-- how a def is called: `${f(a)}`, `${f(a) | wrapS}`, `${capture(f, a)}`, `${capture(f, a) | wrapS}` – `capture` runs the
+    callable with a fresh buffer on top of the context's buffer stack, returns what was written to it and drops the
+    callable's return value -/
+inductive Site
+  | plain | filtered | captured | capturedFiltered
   deriving DecidableEq, Repr
 
 /-- call tree of a template body -/
@@ -113,8 +132,8 @@ inductive Items
   | text (s : Str) (rest : Items)
   | var (x : Str) (rest : Items)                 -- `${x}`
   | tick (tag : Str) (rest : Items)              -- `${tick('tag')}` : the execution counter, writes nothing
-  | inv (h : Hdr) (arg : Option Expr) (site : Bool) (body : Items) (rest : Items)
-      -- a call `${f(arg)}` / `${f(arg) | wrapS}` (`site`) of a def, or a block standing here
+  | inv (h : Hdr) (arg : Option Expr) (site : Site) (body : Items) (rest : Items)
+      -- a call of a def (`site`: how), or a block standing here
   deriving Repr
 
 /-- the Python name of the section's render callable: `render_body`, `render_<name>` for a top-level def
@@ -179,10 +198,20 @@ def returnsValue (h : Hdr) : Bool :=
     what the callable wrote and then its (possibly filtered) return value; a block's call site writes the block's return
     value too iff `blockResultWritten` (regenerated from `visitBlockTag`; true since /repo 248d875 – before, a buffered
     block's content was dropped) -/
-def deliver (h : Hdr) (site : Bool) (v : Str) : Str :=
+def deliver (h : Hdr) (site : Site) (v : Str) : Str :=
   if isCall h.kind then
-    if returnsValue h then (if site then wrapS v else v)
-    else v ++ (if site then wrapS [] else [])
+    -- what the callable writes while it runs / what it returns
+    let w := if returnsValue h then [] else v
+    let r := if returnsValue h then v else []
+    -- the decorator of a cached inline callable writes through the writer its *enclosing* callable fetched when it
+    -- started, unless it fetches the writer itself (`decoratorFetchesWriter`, regenerated): then what it writes lands
+    -- below a buffer that `capture` has pushed since
+    let escapes := h.cached && isInline h.kind && !returnsValue h && !decoratorFetchesWriter
+    match site with
+    | .plain => w ++ r
+    | .filtered => w ++ wrapS r
+    | .captured => w
+    | .capturedFiltered => if escapes then w ++ wrapS [] else wrapS w
   else if returnsValue h && !blockResultWritten then [] else v
 
 /-! ## templates, back end, state -/
@@ -228,6 +257,7 @@ structure Snap (R : Type) where
 /-- ghost record of one run of a creation function: which section (header, body), in which scope and render context,
     from which state (taken when the back end called the creation function) -/
 structure Creation (R : Type) where
+  rtid : Nat                       -- the template being rendered
   h : Hdr
   body : Items
   env : Env
@@ -307,6 +337,21 @@ def scope (P : Params R) (h : Hdr) (env : Env) (arg : Option Expr) : Env :=
   | some p, some a => (p, evalExpr env a) :: base
   | _, _ => base
 
+/-- header of a `<%page>` tag with these `cache…` attributes -/
+def pageHdr (attrs : List (Str × Expr)) : Hdr :=
+  { kind := .page, name := [], line := 0, param := none, cached := false, buffered := false, filtered := false,
+    attrs := attrs }
+
+/-- whose cache a section uses: the declaring template's – id, `cache_args`, page arguments, `cache_enabled` flag,
+    `_def_regions` memo and compile stamp are that template's; scope and render context stay those of the render -/
+def eff (P : Params R) (h : Hdr) : Params R :=
+  match h.home with
+  | none => P
+  | some hm =>
+    { P with tid := hm.tid
+             tm := { uri := hm.uri, cacheArgs := hm.cacheArgs, enabled0 := true, page := pageHdr hm.pageAttrs,
+                     body := .nil } }
+
 /-- Rendering.  For a cached section this is the generated wrapper calling `Cache._ctx_get_or_create`, which
     either runs the creation function (`cache_enabled` false), or asks the back end, which runs it iff it has no
     (sufficiently recent, see `visible`) value under the key and stores what it returned. -/
@@ -326,21 +371,22 @@ def run (P : Params R) (env : Env) : Items → St R → Str × St R
       if !h.cached then
         let b := run P env' body st
         (finish h b.1, b.2)
-      else if !(st.enabled P.tid) then
-        let b := run P env' body (st.emit (.bypass P.tid (fname h)))
+      else if !(st.enabled (eff P h).tid) then
+        let b := run P env' body (st.emit (.bypass (eff P h).tid (fname h)))
         (finish h b.1, b.2)
       else
+        let Q := eff P h
         let key := keyOf h env'
-        let g := getCacheKw P.tm.cacheArgs (st.regions P.tid) (fname h) (sectionKw P.tm.page h env')
-        let K : Key R := (cid P.tm, P.be.regionOf g.1, key)
-        let st0 := (st.setRegions P.tid g.2).emit (.call P.tid .goc (cid P.tm) key (addCtx P.be.passContext g.1))
-        match visible P.be st P.tid K with
-        | some v => (v, st0.emit (.enter P.tid (fname h) K (.hit v)))
+        let g := getCacheKw Q.tm.cacheArgs (st.regions Q.tid) (fname h) (sectionKw Q.tm.page h env')
+        let K : Key R := (cid Q.tm, P.be.regionOf g.1, key)
+        let st0 := (st.setRegions Q.tid g.2).emit (.call Q.tid .goc (cid Q.tm) key (addCtx P.be.passContext g.1))
+        match visible P.be st Q.tid K with
+        | some v => (v, st0.emit (.enter Q.tid (fname h) K (.hit v)))
         | none =>
-          let st1 := st0.emit (.enter P.tid (fname h) K .miss)
+          let st1 := st0.emit (.enter Q.tid (fname h) K .miss)
           let b := run P env' body st1
           (finish h b.1, (b.2.put K (finish h b.1)).emit
-            (.created P.tid (fname h) K (finish h b.1) ⟨h, body, env', P.ctx, st1.snap⟩))
+            (.created Q.tid (fname h) K (finish h b.1) ⟨P.tid, h, body, env', P.ctx, st1.snap⟩))
     let r := run P env rest a.2
     (deliver h site a.1 ++ r.1, r.2)
 
@@ -379,7 +425,7 @@ def step (w : World R) (st : St R) : Op → Resp × St R
     match w.tmpls[t]? with
     | none => (.noTemplate, st)
     | some tm =>
-      let r := run ⟨w.be, tm, t, c⟩ c (.inv tm.page none false tm.body .nil) st
+      let r := run ⟨w.be, tm, t, c⟩ c (.inv tm.page none .plain tm.body .nil) st
       (.out r.1, r.2)
   | .invalidateBody t =>
     match w.tmpls[t]? with
